@@ -56,6 +56,7 @@ def c01(res, wd):
     ps += plans.batch(res.seed * 1000 + 2, nl, fl, p_pause=0.0)
     ps += plans.batch(res.seed * 1000 + 9, sizes(res.tier, 6, 40), 300, fam=plans.tight)
     engines.obs_runs(res, "C01", ps, {"C01"}, wd, "c01", nontrivial=_rollback_nontrivial)
+    engines.conform_sample(res, "C01", ps, wd, "c01", sizes(res.tier, 3, 12))
     res.rule = ("(1) exhaustive TLC exploration of System.tla (2 peers, inputs {0,1}, every tick interleaving, "
                 "loss/arbitrary delay per link) with the monitor as invariant; (2) TLC-simulated schedules replayed "
                 "on the real sessions and checked by Trace_Sys (conformance) and Trace_Obs (property); (3) random "
@@ -334,6 +335,16 @@ def _host_disc_plan(rng, frames):
 
 
 def c06(res, wd):
+    # model: one host (one local player) + one spectator, exhaustive; catch-up settings scaled down
+    held, cex = engines.mc_system(res, wd, "h1s_f3", {"Peers": "GenPeers1s", "NumPlayers": 1, "Window": 2, "MaxFrame": 3,
+                                                     "MaxBehind": 1, "Catchup": 2}, timeout=600)
+    if not held:
+        engines.confirm_on_impl(res, "C06", wd, "h1s_f3", cex, {"C06"})
+    ns, depth = sizes(res.tier, (6, 100), (40, 160))
+    engines.s2i_runs(res, "C06", wd, "g1s", {"Peers": "GenPeers1s", "NumPlayers": 1, "MaxFrame": 8, "MaxBehind": 1,
+                                             "Catchup": 3, "MaxSteps": depth - 10}, ns, depth, {"C06"})
+    engines.s2i_runs(res, "C06", wd, "g2s", {"Peers": "GenPeers2s", "NumPlayers": 2, "MaxFrame": 7, "MaxBehind": 2,
+                                             "Catchup": 2, "MaxSteps": depth - 10, "Mortal": "{0}"}, ns, depth, {"C06"})
     n, frames = sizes(res.tier, (14, 300), (100, 1200))
     rng = random.Random(res.seed * 1000 + 60)
     ps = [_spec_plan(rng, frames) for _ in range(n)]
@@ -382,7 +393,8 @@ def c06(res, wd):
                 "was overrun; spectators at 0.3x..3x tick rate with pauses beyond the ring, 1-3 host-side peers, "
                 "host-side kills/explicit disconnects; plus twin runs (with / without spectators, frame-indexed inputs) "
                 "compared by Trace_Twin.tla.  non-trivial = >=50 frames replayed by spectators")
-    res.assumptions += ["the spectator session itself is not yet part of System.tla (monitor-level verdict only)"]
+    res.assumptions += ["exhaustive exploration covers one host + one spectator only (two players + spectator exceed "
+                        "400 s); larger topologies are TLC-simulated schedules and random runs"]
 
 
 # ---------------------------------------------------------------------------------------------
@@ -435,6 +447,7 @@ def c07(res, wd):
     ps = [_drop_plan(rng, rng.choice([60, 120, 250])) for _ in range(n)]
     engines.obs_runs(res, "C07", ps, {"C07"}, wd, "c07",
                      nontrivial=lambda st, pl: st["discInputs"] >= 5)
+    engines.conform_sample(res, "C07", ps, wd, "c07", sizes(res.tier, 3, 12))
     res.rule = ("two-peer sessions (1-2 players per side, windows 0..8, delays, sparse on/off, both predictors, "
                 "with/without spectator, loss up to 30%) in which one side is killed at a random frame with packets in "
                 "flight or disconnected explicitly; Monitor.tla judges event timing against the virtual clock "
@@ -1292,8 +1305,14 @@ CHECKS = {
 
 def replay(res, wd, path):
     """Re-execute the schedule of a recorded trace on the current tree and judge it again."""
-    import json
-    import os
+    with open(path) as f:
+        first = f.readline()
+    if not first.startswith('{"a":"cfg"'):
+        # codec / builder artefacts are records, not schedules: the whole (deterministic, exhaustive) check is
+        # the replay
+        core.log("[%s] %s is not a schedule trace; re-running the check" % (res.pid, path))
+        CHECKS[res.pid](res, wd)
+        return res.finish()
     with open(path) as f:
         lines = [json.loads(x) for x in f if x.strip()]
     cfg = lines[0]["cfg"]
@@ -1314,3 +1333,78 @@ def replay(res, wd, path):
     res.nontrivial = 2
     res.add_sample({"replayed": path, "stats": r["stats"]})
     return res.finish()
+
+
+def selftest(res, wd):
+    """Demonstrates the binding of the specification to the code: every tampering with a recorded trace
+    must be rejected, and the regression model runs must find their counterexamples."""
+    core.build()
+    rng = random.Random(7)
+    plan = plans.general(rng, 120, npeers=2, max_locals=1, window=4)
+    plan["loss"] = 0.1
+    base = os.path.join(wd, "base.ndjson")
+    core.drive([plan], base, detail=2)
+    ok = engines.validate_sys(base, os.path.join(wd, "md_base"))
+    results = [("untampered trace accepted by Trace_Sys", not ok["drift"])]
+    with open(base) as f:
+        lines = [json.loads(x) for x in f]
+
+    def write(name, ls):
+        pth = os.path.join(wd, name)
+        with open(pth, "w") as f:
+            for l in ls:
+                f.write(json.dumps(l) + "\n")
+        return pth
+
+    # 1. one internal field of one snapshot changed
+    t1 = json.loads(json.dumps(lines))
+    for l in t1[len(t1) // 2:]:
+        if l.get("a") == "tick" and l.get("r") == "ok" and "sn" in l:
+            l["sn"]["sync"]["queues"][0]["last_requested"] += 1
+            break
+    d1 = engines.validate_sys(write("t1.ndjson", t1), os.path.join(wd, "md_t1"))
+    results.append(("corrupted snapshot field rejected (drift reported)", bool(d1["drift"])))
+    # 2. one delivery step removed
+    t2 = list(lines)
+    for i, l in enumerate(t2):
+        if i > len(t2) // 2 and l.get("a") == "dlv":
+            del t2[i]
+            break
+    d2 = engines.validate_sys(write("t2.ndjson", t2), os.path.join(wd, "md_t2"))
+    results.append(("removed delivery step rejected (drift reported)", bool(d2["drift"])))
+    # 3. two API calls swapped
+    t3 = list(lines)
+    idx = [i for i, l in enumerate(t3) if l.get("a") == "tick" and l.get("r") == "ok"]
+    a, b = idx[len(idx) // 2], idx[len(idx) // 2 + 1]
+    t3[a], t3[b] = t3[b], t3[a]
+    d3 = engines.validate_sys(write("t3.ndjson", t3), os.path.join(wd, "md_t3"))
+    results.append(("swapped calls rejected (drift reported)", bool(d3["drift"])))
+    # 4. an input value handed to the game changed: the property monitor must object
+    t4 = json.loads(json.dumps(lines))
+    done = False
+    for l in t4[len(t4) // 2:]:
+        if l.get("a") == "tick" and l.get("r") == "ok":
+            for rq in l.get("q", []):
+                if rq[0] == "A" and rq[1][1][1] == 0:
+                    rq[1][1][0] = (rq[1][1][0] + 1) % 4
+                    done = True
+                    break
+        if done:
+            break
+    try:
+        o4 = core.validate_trace(write("t4.ndjson", t4), os.path.join(wd, "md_t4"))
+        results.append(("changed confirmed input flagged by the monitor", any(v[1] in ("C01", "C03", "TOOL") for v in o4["viol"])))
+    except core.ToolError:
+        results.append(("changed confirmed input flagged by the monitor", True))
+    # 5. regression model runs (pinned pre-fix behaviour must violate)
+    try:
+        engines.mc_generic(res, wd, "self_link_pinned", "MC_Link.tla",
+                           {"W": 1, "MaxFrame": 6, "Cap": 2, "FaultBudget": 3, "SpectatorStyle": "TRUE"},
+                           invariants=LINK_INV, props=["NoWedge"], overrides={"AckUndecodable": "PinnedBehaviour"},
+                           expect_violation=True, workers=6)
+        results.append(("MC_Link with the pinned behaviour finds the wedge", True))
+    except core.ToolError:
+        results.append(("MC_Link with the pinned behaviour finds the wedge", False))
+    for name, good in results:
+        print("%-70s %s" % (name, "ok" if good else "FAILED"))
+    return 0 if all(g for _, g in results) else 2
